@@ -150,6 +150,15 @@ def rule_dual(ctx):
     r.analysed(h)
     # diagonalising conjugation: Winv @ mat @ W
     lam = [n for n in ast.walk(h.node) if isinstance(n, ast.Lambda)]
+    # W and its inverse are the first / second result of diagonalize_form
+    # (possibly re-typed afterwards), whatever they are called
+    w_name, wi_name = "W", "Winv"
+    for n in ast.walk(h.node):
+        if isinstance(n, ast.Assign) and isinstance(n.value, ast.Call) \
+                and dotted(n.value.func).endswith("diagonalize_form") \
+                and isinstance(n.targets[0], ast.Tuple) \
+                and len(n.targets[0].elts) == 2:
+            w_name, wi_name = (dotted(e) for e in n.targets[0].elts)
     good = False
     for L in lam:
         b = L.body
@@ -164,10 +173,10 @@ def rule_dual(ctx):
                     parts.append(dotted(x))
             flat(b)
             if len(parts) == 3 and parts[1] == L.args.args[0].arg \
-                    and {parts[0], parts[2]} == {"W", "Winv"}:
+                    and {parts[0], parts[2]} == {w_name, wi_name}:
                 good = parts
     if good:
-        if good[0] == "Winv":
+        if good[0] == wi_name:
             r.ok("DU", "cartan_representation:conjugation", loc(h, lam[0]),
                  dotted(lam[0]), "conjugates as Winv @ mat @ W (W^T B W = D)")
         else:
@@ -900,9 +909,12 @@ def rule_wp1(ctx):
                     # of an evaluator is a lookup guard, not a parsing
                     # decision: it is a parsing decision when the tested
                     # value is the whole word / label parameter
+                    # in parse_word / _word_value the tested value is the
+                    # word parameter; _automaton_accepted never iterates
+                    # over letters, so any name tested there is a label
                     if isinstance(left, ast.Name) and (
-                            left.id in f.params or left.id in ("label",
-                                                               "word")):
+                            left.id in f.params
+                            or q.endswith("_automaton_accepted")):
                         bad = n
         if bad is not None:
             r.violation(
